@@ -30,6 +30,7 @@ import (
 	"github.com/ethereum/go-ethereum/common"
 	"github.com/ethereum/go-ethereum/core/rawdb"
 	"github.com/ethereum/go-ethereum/ethdb"
+	"github.com/ethereum/go-ethereum/ethdb/memorydb"
 	"github.com/ethereum/go-ethereum/internal/verif/mc"
 	"github.com/ethereum/go-ethereum/log"
 	"github.com/ethereum/go-ethereum/trie"
@@ -48,6 +49,10 @@ type c18Case struct {
 	Suffix   []string `json:"suffix,omitempty"`
 	// Check selects a dedicated scenario ("shorten-during-initial-indexing").
 	Check string `json:"check,omitempty"`
+	// IniterPark: the history is built without indexing, then a genuine indexIniter is started on it and its background
+	// index routine is held at its final flush ("before-final-flush": in front of the batch write that carries the index
+	// metadata, "after-final-flush": right after it, before the routine returns) while Recover(Rollback) arrives.
+	IniterPark string `json:"initer_park,omitempty"`
 }
 
 // c18NodeDB serves trie nodes of historical states through HistoricNodeReader.
@@ -478,6 +483,219 @@ func (run *c18Run) interleavePruner(c c18Case) error {
 	return run.verify(true, true, true, fmt.Sprintf("after suffix %v executed while the index pruner scan was held at entry %d", c.Suffix, c.PrunerAt))
 }
 
+// ---------------------------------------------------------------------------------------------------------------
+// the background index routine of indexIniter as an explored participant
+
+var c18MetaKey = func() []byte {
+	tmp := memorydb.New()
+	rawdb.WriteStateHistoryIndexMetadata(tmp, []byte{1})
+	it := tmp.NewIterator(nil, nil)
+	defer it.Release()
+	it.Next()
+	return common.CopyBytes(it.Key())
+}()
+
+// c18IniterDisk is the database handed to the indexIniter: the first batch that carries the index metadata (the
+// final flush of the background index routine) is held before or after its write.
+type c18IniterDisk struct {
+	ethdb.Database
+	after    bool
+	armed    atomic.Bool
+	timedOut atomic.Bool
+	arrived  chan struct{}
+	release  chan struct{}
+}
+
+func (d *c18IniterDisk) NewBatch() ethdb.Batch { return &c18IniterBatch{Batch: d.Database.NewBatch(), d: d} }
+func (d *c18IniterDisk) NewBatchWithSize(n int) ethdb.Batch {
+	return &c18IniterBatch{Batch: d.Database.NewBatchWithSize(n), d: d}
+}
+
+type c18IniterBatch struct {
+	ethdb.Batch
+	d   *c18IniterDisk
+	hit bool
+}
+
+func (b *c18IniterBatch) Put(key, value []byte) error {
+	if bytes.Equal(key, c18MetaKey) {
+		b.hit = true
+	}
+	return b.Batch.Put(key, value)
+}
+
+func (b *c18IniterBatch) park() {
+	close(b.d.arrived)
+	select {
+	case <-b.d.release:
+	case <-time.After(2 * time.Minute): // watchdog: a harness hang becomes a harness error
+		b.d.timedOut.Store(true)
+	}
+}
+
+func (b *c18IniterBatch) Write() error {
+	gate := b.hit && b.d.armed.CompareAndSwap(true, false)
+	if gate && !b.d.after {
+		b.park()
+	}
+	err := b.Batch.Write()
+	if gate && b.d.after {
+		b.park()
+	}
+	return err
+}
+
+// c18BlockedOnDone reports whether the run goroutine of the given initer is blocked in a plain channel receive
+// inside indexIniter.run (the only one is `<-done`, the wait for the interrupted index routine). The goroutine states
+// are read from runtime.Stack: this is the synchronisation point "the shorten signal has been taken and the initer
+// now waits for the background routine" (no sleeps; polled with Gosched).
+func c18BlockedOnDone(i *indexIniter, buf []byte) bool {
+	n := runtime.Stack(buf, true)
+	needle := fmt.Sprintf("pathdb.(*indexIniter).run(%p", i)
+	for _, g := range strings.Split(string(buf[:n]), "\n\n") {
+		lines := strings.SplitN(g, "\n", 3)
+		if len(lines) < 2 || !strings.Contains(lines[0], "[chan receive") {
+			continue
+		}
+		if strings.Contains(lines[1], needle) {
+			return true
+		}
+	}
+	return false
+}
+
+// c18IniterRace runs one scenario of the family "rollback while the initial indexing is still running".
+func c18IniterRace(r *mc.R, c c18Case) (error, error) {
+	in := c17NewInst(c.Cfg) // c.Cfg.Index is false: the history is written without any indexer
+	defer in.close()
+	if ok, err := in.run(c.Ops); err != nil || !ok {
+		if !ok {
+			return errors.New("harness: history contains a disabled delta"), nil
+		}
+		return err, nil
+	}
+	run := &c18Run{r: r, in: in, known: map[common.Hash]*c18Root{}}
+	run.all = append(run.all, &c18Root{root: common.HexToHash("0xdeadbeef"), id: -1}, &c18Root{root: common.Hash{}, id: -1})
+	run.record()
+	// indexing is switched on: a genuine initer (sync state "synced", as with NoHistoryIndexDelay) starts indexing the
+	// existing histories in its background routine
+	hd := &c18IniterDisk{Database: in.disk, after: c.IniterPark == "after-final-flush", arrived: make(chan struct{}), release: make(chan struct{})}
+	hd.armed.Store(true)
+	head := in.db.tree.bottom().stateID()
+	initer := &indexIniter{
+		state:     &initerState{state: stateSynced, disk: in.disk, term: make(chan struct{})},
+		disk:      hd,
+		freezer:   in.db.stateFreezer,
+		interrupt: make(chan *interruptSignal),
+		done:      make(chan struct{}),
+		closed:    make(chan struct{}),
+		typ:       typeStateHistory,
+		log:       log.New("type", "initer-under-test"),
+	}
+	initer.last.Store(head)
+	initer.wg.Add(1)
+	go initer.run(false)
+	in.db.stateIndexer = &historyIndexer{initer: initer, pruner: newIndexPruner(in.disk, typeStateHistory), typ: typeStateHistory, disk: in.disk, freezer: in.db.stateFreezer}
+	released := false
+	releaseGate := func() {
+		if !released {
+			released = true
+			close(hd.release)
+		}
+	}
+	defer releaseGate()
+	select {
+	case <-hd.arrived:
+		r.Outcome("initer:index-routine-parked-" + c.IniterPark)
+	case <-initer.done:
+		return errors.New("harness: the initer finished without a final flush carrying the index metadata"), nil
+	case <-time.After(2 * time.Minute):
+		return errors.New("harness: the background index routine did not reach its final flush"), nil
+	}
+	// the rollback arrives now; its shorten signal is taken by the initer, which then waits for the parked routine
+	result := make(chan error, 1)
+	go func() { result <- in.db.Recover(in.roots[c.Rollback]) }()
+	var (
+		recErr  error
+		recDone bool
+		buf     = make([]byte, 4<<20)
+		begin   = time.Now()
+	)
+	for n := 0; !recDone; n++ {
+		select {
+		case recErr = <-result:
+			recDone = true
+			continue
+		default:
+		}
+		if c18BlockedOnDone(initer, buf) {
+			break
+		}
+		for k := 0; k < 64; k++ {
+			runtime.Gosched()
+		}
+		if n%64 == 63 && time.Since(begin) > 2*time.Minute {
+			return errors.New("harness: the initer neither answered the shorten signal nor waited for its index routine"), nil
+		}
+	}
+	releaseGate()
+	if !recDone {
+		recErr = <-result
+	}
+	if hd.timedOut.Load() {
+		return errors.New("harness: the parked index routine was not released in time"), nil
+	}
+	if recErr != nil {
+		return fmt.Errorf("Recover(state %d) while the background index routine is at its final flush (%s): %v", c.Rollback, c.IniterPark, recErr), nil
+	}
+	run.epoch++
+	// re-extension on a different fork up to and past the old head id
+	var origNext string
+	n := 0
+	for _, op := range c.Ops {
+		if op != c17Commit {
+			if n == c.Rollback {
+				origNext = op
+			}
+			n++
+		}
+	}
+	in.roots, in.worlds = in.roots[:c.Rollback+1], in.worlds[:c.Rollback+1]
+	forkOps := []string{"B+", c17Commit, "A+", c17Commit}
+	if origNext == "B+" {
+		forkOps = []string{"A+", c17Commit, "B+", c17Commit}
+	}
+	if _, err := in.run(forkOps); err != nil {
+		return fmt.Errorf("fork after the rollback: %v", err), nil
+	}
+	run.record()
+	// drain: if the initer is still running, perform the step of its next heart-beat directly (index the remaining
+	// histories up to the target; no routine is active, the shorten handling has waited for it), then it would declare
+	// the index complete (canExit) without touching the data: stop it and continue with an indexer in the "done" state.
+	if !initer.inited() {
+		r.Outcome("initer:still-running-after-rollback")
+		initer.index(make(chan struct{}), nil, initer.last.Load())
+		meta := loadIndexMetadata(in.disk, typeStateHistory)
+		if meta == nil || meta.Last != initer.last.Load() {
+			return fmt.Errorf("after its heart-beat step the initer cannot complete: index metadata %v, target %d", meta, initer.last.Load()), nil
+		}
+		in.db.stateIndexer.close()
+		done := make(chan struct{})
+		close(done)
+		in.db.stateIndexer = &historyIndexer{
+			initer: &indexIniter{state: &initerState{state: stateSynced, disk: in.disk, term: make(chan struct{})}, disk: in.disk, freezer: in.db.stateFreezer,
+				interrupt: make(chan *interruptSignal), done: done, closed: make(chan struct{}), typ: typeStateHistory, log: log.New("type", "initer-done")},
+			pruner: newIndexPruner(in.disk, typeStateHistory), typ: typeStateHistory, disk: in.disk, freezer: in.db.stateFreezer,
+		}
+	} else {
+		r.Outcome("initer:finished-by-the-shorten")
+	}
+	if err := run.verify(true, true, true, fmt.Sprintf("after Recover(state %d) with the index routine held %s, a different fork and the drained initer", c.Rollback, c.IniterPark)); err != nil {
+		return err, run.abandoned
+	}
+	return nil, run.abandoned
+}
+
 // c18Sub is the case key under which wrong values served by a long-lived reader that survived a rollback are reported.
 type c18Sub struct {
 	Cfg      c17Cfg   `json:"cfg"`
@@ -501,7 +719,11 @@ func c18Both(r *mc.R, c c18Case, reportStale bool) {
 	)
 	run := func() {
 		if !done {
-			mainErr, abErr = c18Check(r, c)
+			if c.IniterPark != "" {
+				mainErr, abErr = c18IniterRace(r, c)
+			} else {
+				mainErr, abErr = c18Check(r, c)
+			}
 			done = true
 		}
 	}
@@ -812,6 +1034,47 @@ func TestVerif_C18(t *testing.T) {
 		for _, cfg := range pcfgs {
 			pcases = append(pcases, c18PrunerCases(r, cfg, allHists)...)
 		}
+		// the background index routine of the initer as a participant: histories written without indexing, indexing
+		// switched on, the routine held before / after its final flush while Recover arrives, then a different fork
+		var icases []c18Case
+		for _, h := range allHists {
+			n := len(h) - 1
+			if h[n] != c17Commit || n < 2 {
+				continue
+			}
+			mid := false
+			for _, op := range h[:n] {
+				mid = mid || op == c17Commit
+			}
+			if mid {
+				continue
+			}
+			icfgs := []c17Cfg{{Hist: 0, Buffer: 0, Trie: -1}}
+			if n == 2 || r.Thorough() {
+				icfgs = append(icfgs, c17Cfg{Hist: 0, Buffer: 1 << 20, Trie: -1})
+			}
+			if r.Thorough() {
+				icfgs = append(icfgs, c17Cfg{Hist: 2, Buffer: 0, Trie: -1})
+			}
+			for _, cfg := range icfgs {
+				for target := n - 1; target >= 1 && target >= n-2; target-- {
+					if cfg.Hist != 0 && uint64(target)+cfg.Hist < uint64(n) {
+						continue
+					}
+					for _, park := range []string{"before-final-flush", "after-final-flush"} {
+						icases = append(icases, c18Case{Cfg: cfg, Ops: h, Rollback: target, IniterPark: park})
+					}
+				}
+			}
+		}
+		r.Bound("initer_interleaving_cases", len(icases))
+		r.Parallel(len(icases), func(i int) {
+			c18Both(r, icases[i], false)
+			r.DistinctHash(mc.Hash64(fmt.Sprint(icases[i])))
+			if i%211 == 0 {
+				r.Sample(icases[i])
+			}
+		})
 		r.Bound("pruner_interleaving_cases", len(pcases))
 		r.Parallel(len(pcases), func(i int) {
 			c18Both(r, pcases[i], false)
